@@ -22,6 +22,7 @@ def make_case(inp):
     cid = V.build_cid(spec)
     text = V.encode(spec, table, broken_tail=fault)
     raws, raw_fault = V.raw_rows(cid, spec, text)
+    raw_leak = V.LAST_RAW_LEAK[0]
     if api == "validate":
         obs = V.run_validate(cid, spec, text, limit)
     else:
@@ -34,6 +35,8 @@ def make_case(inp):
             obs["fn_mismatch"] = "cutplace.rows(on_error=%r) gives %r / raises %r but `with Reader(...)` gives %r / raises %r" % (
                 mode, fn["outs"][-2:], fn["raised"], obs["outs"][-2:], obs["raised"])
     obs["raw_fault"] = raw_fault
+    if raw_leak:
+        obs["fn_mismatch"] = "the row reader failed with a non-cutplace exception on a malformed container: " + raw_leak
     coq_in = P(V.coq_cid(spec), B(api == "validate"), V.MODES[mode], O(limit, Nat), L(raws, lambda r: L(r, S)), B(raw_fault))
     n_err = sum(1 for o in obs["outs"] if "err" in o) + (1 if obs["raised"] else 0)
     tags = [spec["format"], mode, api, "errors" if n_err else "clean", "fault" if raw_fault else "nofault", "rows%d" % len(raws)] + (["second-pass"] if inp.get("prepass") else [])
